@@ -214,12 +214,11 @@ impl vstd::std_specs::ops::DivSpecImpl<Number> for Number {
 // 9.1.3.1 integer rounding. Float arm: engine K (unit float_kernels, harness rnd_i_float); exact arms by reading (listed).
 pub uninterp spec fn floor_f(f: f64) -> int;     // floor of a finite double as a mathematical integer
 pub open spec fn normalised(x: Number) -> bool { is_int(x) && ((x is Fixnum) == in_fix(ival(x))) }
+// the Float arm of rnd_i as one opaque step (its text is replaced as a whole, R10); decided on the real code by
+// engine K (float_kernels: rnd_i_float, rnd_i_nonfinite)
 #[verifier::external_body]
-pub fn rnd_i(n: &Number, arena: &mut Arena) -> (r: Result<Number, EvalError>)
-    ensures
-        is_int(*n) ==> (r matches Ok(x) && normalised(x) && ival(x) == ival(*n)),
-        n is Rational ==> (r matches Ok(x) && normalised(x) && ival(x) == q_floor(rval(*n))),
-        n is Float ==> (match classify_spec(flt(*n)) { Ok(f) => r matches Ok(x) && normalised(x) && ival(x) == floor_f(f), Err(e) => r == Err::<Number, EvalError>(e) }),
+pub fn rnd_i_float_arm(f: OrderedFloat<f64>, arena: &mut Arena) -> (r: Result<Number, EvalError>)
+    ensures match classify_spec(f.0) { Ok(g) => r matches Ok(x) && normalised(x) && ival(x) == floor_f(g), Err(e) => r == Err::<Number, EvalError>(e) }
 { unimplemented!() }
 // `f64::consts::E` is rewritten to this nullary shim (R5)
 #[verifier::external_body] pub fn f64_consts_e() -> (r: f64) ensures r == f_const_e() { unimplemented!() }
